@@ -47,6 +47,8 @@ func vMStep(s vMState, o vMOp) (vMState, bool) {
 		return s, s.bound[f]
 	case 4:
 		return s, s.bound[f] && s.open[f]
+	case 7: // walk in place by one name: the fid stays bound (to the walked-to entry)
+		return s, s.bound[f]
 	}
 	return s, false
 }
@@ -58,6 +60,12 @@ func vMDo(sess *session, o vMOp) bool {
 		err = sess.Clunk(vBG, o.fid)
 	case 5:
 		err = sess.Remove(vBG, o.fid)
+	case 7:
+		var qs []Qid
+		qs, err = sess.Walk(vBG, o.fid, o.fid, "a")
+		if err == nil && len(qs) != 1 {
+			err = errVMock
+		}
 	case 1, 6:
 		_, err = sess.Walk(vBG, o.fid, o.nf)
 	case 2:
@@ -334,4 +342,47 @@ func VerifC14_AuthFid() {
 		unlocked() // an operation that never returns is reported as a deadlock
 	}
 	vReach("c14.authfid")
+}
+
+
+// ---- a walk in place racing another operation on the same fid -----------------
+// fid 1 is a directory; A walks it in place by one name, B is a stat, clunk,
+// remove or clone of fid 1 at the same time.  Every schedule; outcome must be
+// that of some sequential order, nothing left locked, no overlapping calls.
+func VerifC14_InPlaceWalk() {
+	fs := &vStubFS{noFail: true, yield: true, fullWalk: true}
+	sess := SFileSys(fs).(*session)
+	e1 := fs.newEnt(true)
+	sess.refs.Store(Fid(1), &SFid{Ent: e1})
+	var st0 vMState
+	st0.bound[1] = true
+	a := vMOp{kind: 7, fid: 1}
+	b := vMOp{kind: []int{3, 0, 5, 1}[ndChoice("b.kind", 4)], fid: 1, nf: 3}
+	fs.failRelease = map[int]bool{}
+	fs.failClone = map[int]bool{}
+	done := make(chan bool, 2)
+	var ra, rb bool
+	go func() { ra = vMDo(sess, a); done <- true }()
+	go func() { rb = vMDo(sess, b); done <- true }()
+	<-done
+	<-done // an operation that never returns is reported as a deadlock
+	final := vMObserve(sess)
+	s1, x1 := vMStep(st0, a)
+	s1, y1 := vMStep(s1, b)
+	s2, y2 := vMStep(st0, b)
+	s2, x2 := vMStep(s2, a)
+	ok1 := ra == x1 && rb == y1 && final == s1
+	ok2 := ra == x2 && rb == y2 && final == s2
+	vAssert(ok1 || ok2, "C14: the results are those of some sequential order of the operations")
+	vAssert(fs.viol == "", "C14: the file system never sees overlapping calls on one fid's entry or file: "+fs.viol)
+	sess.refs.Range(func(k, v interface{}) bool {
+		sf := v.(*SFid)
+		okl := sf.TryLock()
+		vAssert(okl, "C14: no fid is left locked after the operations returned")
+		if okl {
+			sf.Unlock()
+		}
+		return true
+	})
+	vReach("c14.inplace")
 }
